@@ -245,6 +245,11 @@ func runC11(c *eng.Ctx) {
 	ruleCursorScanCoversAcknowledgedTail(c)
 	c.Rule("R11.1", "K1")
 	ruleFailedSetCursorLeavesNoStaleCache(c)
+	ruleSuccessfulSetCursorTouchesTheCache(c)
+	c.Rule("R08.1", "K1")
+	ruleKeyScanCoversEverySegment(c)
+	c.Rule("R08.2", "K5")
+	ruleNewestSegmentUntouched(c)
 
 }
 
